@@ -434,3 +434,275 @@ Proof.
   intros b p s [|a0 ar] Ha; [congruence|]. cbn [app]. unfold init_map_key.
   repeat (first [ apply init_byte_seq_ext | ext_solve | bm ]).
 Qed.
+
+(* ---------- reachable parser states ---------- *)
+Definition cfg (p : cparser) : list cstate := p_cur p :: p_stack p.
+
+Definition is_sub (m : Z) : Prop :=
+  m = mArr \/ m = mMap \/ m = mArr + stIndef \/ m = mMap + stIndef.
+
+(* a stack of open containers over the top-level stValue *)
+Inductive ctxs : list cstate -> Prop :=
+| ctxs_base : forall c, c_major c = stValue -> ctxs [c]
+| ctxs_sub : forall c l, is_sub (c_major c) -> ctxs l -> ctxs (c :: l).
+
+Definition leafm (m : Z) : Prop :=
+  m = mUint \/ m = mNeg \/ m = 250 \/ m = 251 \/ m = mBytes \/ m = mText \/
+  m = mBytes + stStartX \/ m = mText + stStartX \/
+  m = stKey \/ m = stKey + stStartX \/ m = stElem.
+
+Definition lenable (l : list cstate) : Prop :=
+  match l with
+  | c :: _ => c_major c = mBytes + stStartX \/ c_major c = mText + stStartX \/
+              c_major c = stKey + stStartX \/ c_major c = mArr + stStartX \/
+              c_major c = mMap + stStartX
+  | [] => False
+  end.
+
+Inductive shape : list cstate -> Prop :=
+| sh_ctx : forall l, ctxs l -> shape l
+| sh_leaf : forall c l, leafm (c_major c) -> ctxs l -> shape (c :: l)
+| sh_subx : forall c c2 l, is_sub (c_major c2) -> c_major c = c_major c2 + stStartX ->
+    ctxs (c2 :: l) -> shape (c :: c2 :: l)
+| sh_len : forall c l, c_major c = stLen -> lenable l -> shape l -> shape (c :: l).
+
+(* the size of the token being collected in the current state *)
+Definition count_of (p : cparser) : Z :=
+  let m := c_major (p_cur p) in
+  let n := c_minor (p_cur p) in
+  if (m =? mUint) || (m =? mNeg) || (m =? stLen) then
+    if (n =? 25) || (n =? 26) || (n =? 27) then 2 ^ (n - 24) else 0
+  else if m =? 250 then 4 else if m =? 251 then 8
+  else if (m =? mText) || (m =? stKey) then p_lcur p else 0.
+
+Definition Inv (p : cparser) : Prop :=
+  p_err p = 0 /\ shape (cfg p) /\ bufok p (count_of p).
+(* between two tokens *)
+Definition InvE (p : cparser) : Prop :=
+  p_err p = 0 /\ shape (cfg p) /\ p_buf p = [].
+(* in a context state *)
+Definition InvC (p : cparser) : Prop :=
+  p_err p = 0 /\ ctxs (cfg p) /\ p_buf p = [].
+
+Lemma InvE_Inv : forall p, InvE p -> Inv p.
+Proof. intros p (H1 & H2 & H3). repeat split; auto. left; auto. Qed.
+Lemma InvC_InvE : forall p, InvC p -> InvE p.
+Proof. intros p (H1 & H2 & H3). repeat split; auto. apply sh_ctx; auto. Qed.
+
+Ltac pc := cbn [cfg p_cur p_stack p_lcur p_lstack p_buf p_err st_pop len_pop set_lcur
+                set_cur set_buf set_err st_push len_push clear_startx c_major c_minor mkst] in *.
+
+Lemma ctxs_nonempty : forall l, ctxs l -> exists c l', l = c :: l'.
+Proof. intros l H; inversion H; eauto. Qed.
+Lemma ctxs_tail : forall c l, ctxs (c :: l) -> c_major c <> stValue ->
+  ctxs l /\ exists c' l', l = c' :: l'.
+Proof.
+  intros c l H Hn. inversion H; subst; [congruence|].
+  split; [assumption|]. apply ctxs_nonempty; assumption.
+Qed.
+Lemma ctxs_head : forall c l, ctxs (c :: l) -> c_major c = stValue \/ is_sub (c_major c).
+Proof. intros c l H; inversion H; auto. Qed.
+Lemma ctxs_notfail : forall c l, ctxs (c :: l) -> (c_major c =? stFail) = false.
+Proof.
+  intros c l H. apply ctxs_head in H. unfold is_sub in H.
+  destruct H as [H|[H|[H|[H|H]]]]; rewrite H; reflexivity.
+Qed.
+
+(* projections through the stack operations *)
+Lemma len_pop_proj : forall p,
+  p_cur (len_pop p) = p_cur p /\ p_stack (len_pop p) = p_stack p /\
+  p_buf (len_pop p) = p_buf p /\ p_err (len_pop p) = p_err p.
+Proof. intros p; unfold len_pop; destruct (p_lstack p); pc; auto. Qed.
+Lemma len_pop_set_lcur : forall p x, len_pop (set_lcur p x) = len_pop p.
+Proof. intros p x; unfold len_pop; pc; destruct (p_lstack p); reflexivity. Qed.
+
+Lemma InvC_len_pop : forall p, InvC p -> InvC (len_pop p).
+Proof.
+  intros p (H1 & H2 & H3). destruct (len_pop_proj p) as (A & B & C & D).
+  unfold InvC, cfg in *. rewrite A, B, C, D. auto.
+Qed.
+Lemma InvC_set_lcur : forall p x, InvC p -> InvC (set_lcur p x).
+Proof. intros p x H; exact H. Qed.
+
+(* popping the state above a context *)
+Lemma InvC_st_pop : forall p c l,
+  p_err p = 0 -> p_buf p = [] -> cfg p = c :: l -> ctxs l -> InvC (st_pop p).
+Proof.
+  intros [cur st lc ls bf er] c l He Hb Hc Hl. pc. inversion Hc; subst.
+  destruct (ctxs_nonempty _ Hl) as (c' & l' & ->). pc. repeat split; auto.
+Qed.
+
+Lemma on_value_inv : forall n p s p1 s1 d e,
+  InvC p -> on_value n p s = Some (p1, s1, d, e) -> InvC p1.
+Proof.
+  induction n as [|n IH]; intros p s p1 s1 d e HI H; [discriminate|].
+  cbn [on_value] in H. cbv zeta in H.
+  destruct ((c_major (p_cur p) =? mArr) || (c_major (p_cur p) =? mMap)) eqn:E1.
+  - destruct (p_lcur (set_lcur p (p_lcur p - 1)) >? 0).
+    + inversion H; subst. apply InvC_set_lcur; assumption.
+    + destruct (vis s _) as [s2 err]. destruct (isnil err).
+      * apply IH in H; [assumption|].
+        rewrite len_pop_set_lcur.
+        destruct HI as (H1 & H2 & H3). destruct (len_pop_proj p) as (A & B & C & D).
+        unfold cfg in H2.
+        destruct (ctxs_tail _ _ H2) as [Ht _].
+        { apply orb_true_iff in E1. destruct E1 as [E1|E1]; apply Z.eqb_eq in E1;
+            rewrite E1; discriminate. }
+        eapply InvC_st_pop; try congruence. unfold cfg. rewrite A, B. reflexivity. exact Ht.
+      * inversion H; subst. apply InvC_set_lcur; assumption.
+  - destruct ((c_major (p_cur p) =? mArr + stIndef) || (c_major (p_cur p) =? mMap + stIndef));
+      inversion H; subst; assumption.
+Qed.
+
+Lemma pop_state_inv : forall p s c l p1 s1 d e,
+  p_err p = 0 -> p_buf p = [] -> cfg p = c :: l -> ctxs l ->
+  pop_state p s = Some (p1, s1, d, e) -> InvC p1.
+Proof.
+  intros p s c l p1 s1 d e He Hb Hc Hl H. unfold pop_state in H.
+  eapply on_value_inv; [|exact H]. eapply InvC_st_pop; eauto.
+Qed.
+
+Ltac bmH H :=
+  match type of H with
+  | context [match ?x with _ => _ end] => destruct x eqn:?
+  end.
+Ltac boolprop :=
+  repeat match goal with
+  | H : (_ || _) = true |- _ => apply orb_true_iff in H; destruct H as [H|H]
+  | H : (_ =? _) = true |- _ => apply Z.eqb_eq in H
+  | H : isnil _ = true |- _ => apply isnil_true in H
+  | H : isnil _ = false |- _ => apply isnil_false in H
+  | H : negb _ = true |- _ => apply negb_true_iff in H
+  | H : negb _ = false |- _ => apply negb_false_iff in H
+  end.
+Ltac invSR H := inversion H; subst; clear H.
+
+Lemma after_value_inv : forall p s rest e p1 s1 rest' d e',
+  InvC p -> after_value p s rest e = SR p1 s1 rest' d e' -> InvC p1.
+Proof.
+  intros p s rest e p1 s1 rest' d e' HI H. unfold after_value in H.
+  destruct (isnil e).
+  - destruct (on_value (depth_fuel p) p s) as [[[[p2 s2] d2] e2]|] eqn:E; [|discriminate].
+    invSR H. eapply on_value_inv; eauto.
+  - invSR H. assumption.
+Qed.
+
+Lemma after_pop_inv : forall p s rest e c l p1 s1 rest' d e',
+  p_err p = 0 -> p_buf p = [] -> cfg p = c :: l -> ctxs l ->
+  after_pop p s rest e = SR p1 s1 rest' d e' -> e' = nilE -> InvC p1.
+Proof.
+  intros p s rest e c l p1 s1 rest' d e' He Hb Hc Hl H Hn. unfold after_pop in H.
+  destruct (isnil e) eqn:Ee.
+  - destruct (pop_state p s) as [[[[p2 s2] d2] e2]|] eqn:E; [|discriminate].
+    invSR H. eapply pop_state_inv; eauto.
+  - invSR H. discriminate.
+Qed.
+
+Lemma cfg_push : forall p n, ctxs (cfg p) -> cfg (st_push p n) = n :: cfg p.
+Proof.
+  intros p n H. unfold cfg in *. pc. rewrite (ctxs_notfail _ _ H). reflexivity.
+Qed.
+
+Lemma push_leaf : forall p m n, InvC p -> leafm m -> InvE (st_push p (mkst m n)).
+Proof.
+  intros p m n (H1 & H2 & H3) Hm. repeat split; auto.
+  rewrite cfg_push by assumption. apply sh_leaf; assumption.
+Qed.
+Lemma push_sub : forall p m n, InvC p -> is_sub m -> InvC (st_push p (mkst m n)).
+Proof.
+  intros p m n (H1 & H2 & H3) Hm. repeat split; auto.
+  rewrite cfg_push by assumption. apply ctxs_sub; assumption.
+Qed.
+Lemma push_subx : forall p n, InvC p -> is_sub (maj p) ->
+  InvE (st_push p (mkst (maj p + stStartX) n)).
+Proof.
+  intros p n (H1 & H2 & H3) Hm. repeat split; auto.
+  rewrite cfg_push by assumption. unfold cfg in *. apply sh_subx; auto.
+Qed.
+Lemma push_len : forall p n, InvE p -> lenable (cfg p) -> InvE (st_push p (mkst stLen n)).
+Proof.
+  intros p n (H1 & H2 & H3) Hm. repeat split; auto.
+  assert (E : cfg (st_push p (mkst stLen n)) = mkst stLen n :: cfg p).
+  { unfold cfg in *. pc. cbn [lenable] in Hm.
+    destruct Hm as [H|[H|[H|[H|H]]]]; rewrite H; reflexivity. }
+  rewrite E. apply sh_len; auto.
+Qed.
+Lemma InvE_len_push : forall p x, InvE p -> InvE (len_push p x).
+Proof. intros p x H; exact H. Qed.
+
+Lemma lenable_push : forall p m n, ctxs (cfg p) ->
+  m = mBytes \/ m = mText \/ m = stKey \/ m = mArr \/ m = mMap ->
+  lenable (cfg (st_push p (mkst (m + stStartX) n))).
+Proof.
+  intros p m n H Hm. rewrite cfg_push by assumption. cbn [lenable c_major mkst].
+  destruct Hm as [H0|[H0|[H0|[H0|H0]]]]; subst m; auto 6.
+Qed.
+
+Lemma init_byte_seq_inv : forall p s major minor b p1 s1 rest d e,
+  InvC p -> major = mBytes \/ major = mText \/ major = stKey ->
+  init_byte_seq p s major minor b = SR p1 s1 rest d e -> e = nilE -> InvE p1.
+Proof.
+  intros p s major minor b p1 s1 rest d e HI Hm H He. unfold init_byte_seq in H.
+  assert (Hl : leafm (major + stStartX)).
+  { unfold leafm. destruct Hm as [?|[?|?]]; subst major; auto 12. }
+  assert (Hm' : major = mBytes \/ major = mText \/ major = stKey \/ major = mArr \/ major = mMap)
+    by (destruct Hm as [?|[?|?]]; auto).
+  destruct (minor <? 24).
+  - invSR H. apply InvE_len_push. apply push_leaf; assumption.
+  - destruct (minor >? 27); invSR H; [discriminate|].
+    apply push_len; [apply push_leaf; assumption|].
+    apply lenable_push; [apply HI|assumption].
+Qed.
+
+Lemma maj_push : forall p m n, maj (st_push p (mkst m n)) = m.
+Proof. reflexivity. Qed.
+
+Lemma init_sub_inv : forall p s major minor b p1 s1 rest d e,
+  InvC p -> major = mArr \/ major = mMap ->
+  init_sub p s major minor b = SR p1 s1 rest d e -> e = nilE -> InvE p1.
+Proof.
+  intros p s major minor b p1 s1 rest d e HI Hm H He. unfold init_sub in H.
+  assert (Hs : is_sub major) by (unfold is_sub; destruct Hm; auto).
+  assert (Hs' : is_sub (major + stIndef)) by (unfold is_sub; destruct Hm; subst; auto).
+  assert (Hm' : major = mBytes \/ major = mText \/ major = stKey \/ major = mArr \/ major = mMap)
+    by (destruct Hm; auto).
+  destruct (minor =? 31).
+  - invSR H.
+    replace (major + stStartX + stIndef) with (maj (st_push p (mkst (major + stIndef) stStart)) + stStartX)
+      by (rewrite maj_push; lia).
+    apply push_subx; [apply push_sub; assumption|]. rewrite maj_push. assumption.
+  - destruct (minor <? 24).
+    + invSR H. apply InvE_len_push.
+      replace (major + stStartX) with (maj (st_push p (mkst major stStart)) + stStartX)
+        by (rewrite maj_push; lia).
+      apply push_subx; [apply push_sub; assumption|]. rewrite maj_push. assumption.
+    + destruct (minor >? 27); invSR H; [discriminate|].
+      apply push_len.
+      * replace (major + stStartX) with (maj (st_push p (mkst major stStart)) + stStartX)
+          by (rewrite maj_push; lia).
+        apply push_subx; [apply push_sub; assumption|]. rewrite maj_push. assumption.
+      * apply lenable_push; [|assumption]. apply (push_sub p major stStart HI Hs).
+Qed.
+
+Lemma step_value_inv : forall p s a p1 s1 rest d e,
+  InvC p -> step_value p s a = SR p1 s1 rest d e -> e = nilE -> InvE p1.
+Proof.
+  intros p s a p1 s1 rest d e HI H He. unfold step_value in H.
+  destruct a as [|b0 r]; [invSR H; apply InvC_InvE; assumption|].
+  repeat (bmH H);
+    try (apply after_value_inv in H; [apply InvC_InvE; assumption|assumption]);
+    try (eapply init_byte_seq_inv in H; eauto; boolprop; auto; fail);
+    try (eapply init_sub_inv in H; eauto; boolprop; auto; fail);
+    invSR H; try discriminate;
+    boolprop; (apply push_leaf; [assumption|]); unfold leafm;
+    repeat match goal with H : _ = _ |- _ => rewrite H end; auto 12.
+Qed.
+
+Lemma init_map_key_inv : forall p s a p1 s1 rest d e,
+  InvC p -> init_map_key p s a = SR p1 s1 rest d e -> e = nilE -> InvE p1.
+Proof.
+  intros p s a p1 s1 rest d e HI H He. unfold init_map_key in H.
+  destruct a as [|b0 r]; [discriminate|].
+  repeat (bmH H); try (invSR H; discriminate).
+  eapply init_byte_seq_inv in H; eauto.
+Qed.
